@@ -52,7 +52,7 @@ DECIDING = ["obs_constraints", "miss_count", "miss_reason", "measurement_exact",
 MANIFEST = {
     "technique": "runtime monitoring: postcondition with OLD snapshot on the real Sensor.collectObservations, independent geometric / "
                  "photometric / link-budget oracle, boundary-by-construction workload",
-    "level_text": "exploration of ~5e3 (quick) / ~4e5 (thorough) tasked attempts on real agents",
+    "level_text": "exploration of ~1.4e4 (quick) / ~4e5 (thorough) tasked attempts on real agents",
     "level_note": "booleans compared only outside calibrated epsilon bands; bands widened for the documented approximations only",
 }
 
@@ -520,6 +520,7 @@ def postcondition(ctx, scene, att, old, res, w):
             if s == 0:
                 continue
             nontrivial = True
+            ctx.count(f"obs_checked_{c}")
             key = f"obs-violates-{c}"
             if c == "elevation" and P.el_reversed:
                 key = "obs-violates-elevation-mask-reversed-order"
@@ -1108,7 +1109,7 @@ def _build(ctx, desc, att0):
 def run(ctx):
     _setup()
     rng = ctx.pyrng("c02")
-    n = ctx.scale(5200, 420_000)
+    n = ctx.scale(14_000, 420_000)
     reserve = 6.0 if ctx.quick else 30.0
     done = 0
     per_scene = 24
